@@ -13,6 +13,21 @@ import (
 
 var protocols = []string{"direct", "socks5", "http", "none", "plain", "2022-blake3-aes-128-gcm", "2022-blake3-aes-256-gcm"}
 
+// uniform draws an index in [0,n) without rapid's bias towards small values (categorical choices
+// such as the protocol or the injected violation should be spread evenly). 0 still shrinks to 0.
+func uniform(rt *rapid.T, label string, n int) int {
+	x := rapid.Uint64().Draw(rt, label)
+	if x == 0 {
+		return 0
+	}
+	x ^= x >> 30
+	x *= 0xbf58476d1ce4e5b9
+	x ^= x >> 27
+	x *= 0x94d049bb133111eb
+	x ^= x >> 31
+	return int(x % uint64(n))
+}
+
 func intp(v int) *int       { return &v }
 func strp(v string) *string { return &v }
 
@@ -68,7 +83,7 @@ func genWorld(rt *rapid.T) *world {
 	nServers := rapid.IntRange(1, 4).Draw(rt, "nServers")
 	for i := range nServers {
 		s := &srv{name: fmt.Sprintf("s%d", i), f: fields{}}
-		s.proto = protocols[rapid.IntRange(0, len(protocols)-1).Draw(rt, fmt.Sprintf("s%d.proto", i))]
+		s.proto = protocols[uniform(rt, fmt.Sprintf("s%d.proto", i), len(protocols))]
 		nets := rapid.IntRange(0, 2).Draw(rt, fmt.Sprintf("s%d.nets", i)) // 0 both, 1 tcp, 2 udp
 		if s.proto == "http" {
 			nets = 1
@@ -174,21 +189,40 @@ func genWorld(rt *rapid.T) *world {
 		w.servers = append(w.servers, s)
 	}
 
-	// clients: direct ones, plus proxy clients that chain into a later server
-	needExplicit := false
-	nDirect := rapid.IntRange(1, 2).Draw(rt, "nDirect")
+	// clients: direct ones, plus proxy clients that chain into a later server; or no clients
+	// section at all ("The clients field can be omitted or left empty. A default "direct" client
+	// will be automatically added", README), in which case everything refers to "direct".
+	implicit := rapid.IntRange(0, 5).Draw(rt, "implicitClients") == 5
+	nDirect := 0
+	if implicit {
+		w.clientsMode = rapid.IntRange(1, 2).Draw(rt, "clientsMode")
+	} else {
+		nDirect = rapid.IntRange(1, 2).Draw(rt, "nDirect")
+	}
+	directNames := []string{"direct"}
+	if !implicit {
+		directNames = nil
+	}
 	for i := range nDirect {
 		c := &cli{name: fmt.Sprintf("d%d", i), proto: "direct", tcp: true, udp: true, toServer: -1, mtu: intp(1500)}
 		c.f = drawFields(rt, "client", c.name, "network", "tcpPathMTUDiscovery", "udpPathMTUDiscovery", "dialerTFO", "tcpFastOpenFallback", "overrideResolverDialAddress")
 		c.mtu = intp(rapid.SampledFrom([]int{1500, 1280, 9000}).Draw(rt, c.name+".mtu"))
 		w.clients = append(w.clients, c)
+		directNames = append(directNames, c.name)
+	}
+	isDirect := func(n string) bool {
+		for _, d := range directNames {
+			if d == n {
+				return true
+			}
+		}
+		return false
 	}
 	for j := 1; j < len(w.servers); j++ {
 		s := w.servers[j]
-		if s.proto == "direct" || rapid.IntRange(0, 2).Draw(rt, fmt.Sprintf("c%d.make", j)) == 0 {
+		if implicit || s.proto == "direct" || rapid.IntRange(0, 2).Draw(rt, fmt.Sprintf("c%d.make", j)) == 0 {
 			continue
 		}
-		needExplicit = true
 		c := &cli{name: fmt.Sprintf("c%d", j), proto: s.proto, toServer: j}
 		c.tcp = len(s.tcp) > 0
 		c.udp = len(s.udp) > 0 && s.proto != "http"
@@ -231,6 +265,9 @@ func genWorld(rt *rapid.T) *world {
 	// upstream choice per server and network: a direct client, or a proxy client of a later server
 	var candidates = func(i int, udp bool) []string {
 		var out []string
+		if implicit {
+			return []string{"direct"}
+		}
 		for _, c := range w.clients {
 			if (udp && !c.udp) || (!udp && !c.tcp) {
 				continue
@@ -251,17 +288,10 @@ func genWorld(rt *rapid.T) *world {
 			cs := candidates(i, true)
 			s.upUDP = cs[rapid.IntRange(0, len(cs)-1).Draw(rt, fmt.Sprintf("s%d.upUDP", i))]
 		}
-		if s.upTCP != "d0" && s.upTCP != "" || s.upUDP != "d0" && s.upUDP != "" {
-			needExplicit = true
-		}
-	}
-	if nDirect > 1 {
-		needExplicit = true
 	}
 
 	// client groups wrapping upstreams
 	if rapid.IntRange(0, 2).Draw(rt, "groups") == 2 {
-		needExplicit = true
 		policies := []string{"round-robin", "random", "availability", "latency", "min-max-latency"}
 		for gi := range rapid.IntRange(1, 2).Draw(rt, "nGroups") {
 			si := rapid.IntRange(0, len(w.servers)-1).Draw(rt, fmt.Sprintf("g%d.server", gi))
@@ -269,22 +299,22 @@ func genWorld(rt *rapid.T) *world {
 			g := &grp{name: fmt.Sprintf("g%d", gi)}
 			member := func(up string) []string {
 				m := []string{up}
-				if c := w.client(up); c != nil && c.toServer == -1 && rapid.Bool().Draw(rt, g.name+".two") {
-					for _, o := range w.clients {
-						if o.toServer == -1 && o.name != up {
-							m = append(m, o.name)
+				if isDirect(up) && rapid.Bool().Draw(rt, g.name+".two") {
+					for _, o := range directNames {
+						if o != up {
+							m = append(m, o)
 						}
 					}
 				}
 				return m
 			}
-			if s.upTCP != "" && w.client(s.upTCP) != nil {
+			if s.upTCP != "" && (w.client(s.upTCP) != nil || isDirect(s.upTCP)) {
 				g.tcp = &sel{policy: policies[rapid.IntRange(0, len(policies)-1).Draw(rt, g.name+".tcpPolicy")], clients: member(s.upTCP)}
 				if g.tcp.policy != "round-robin" && g.tcp.policy != "random" {
 					g.tcp.probe = drawFields(rt, "tcpprobe", g.name+".tp", "timeout", "interval", "concurrency", "address", "escapedPath", "host")
 				}
 			}
-			if s.upUDP != "" && w.client(s.upUDP) != nil && rapid.Bool().Draw(rt, g.name+".udp") {
+			if s.upUDP != "" && (w.client(s.upUDP) != nil || isDirect(s.upUDP)) && rapid.Bool().Draw(rt, g.name+".udp") {
 				g.udp = &sel{policy: policies[rapid.IntRange(0, len(policies)-1).Draw(rt, g.name+".udpPolicy")], clients: member(s.upUDP)}
 				if g.udp.policy != "round-robin" && g.udp.policy != "random" {
 					g.udp.probe = drawFields(rt, "udpprobe", g.name+".up", "timeout", "interval", "concurrency", "address")
@@ -305,19 +335,13 @@ func genWorld(rt *rapid.T) *world {
 
 	// DNS resolvers
 	if rapid.IntRange(0, 2).Draw(rt, "dns") > 0 {
-		needExplicit = true
 		for ri := range rapid.IntRange(1, 2).Draw(rt, "nResolvers") {
 			r := &res{name: fmt.Sprintf("r%d", ri)}
 			if rapid.IntRange(0, 3).Draw(rt, r.name+".system") == 3 {
 				r.system = true
 			} else {
 				r.addrPort = "127.0.0.1:@@DNS@@"
-				var viaNames []string
-				for _, c := range w.clients {
-					if c.toServer == -1 {
-						viaNames = append(viaNames, c.name)
-					}
-				}
+				viaNames := directNames
 				via := viaNames[rapid.IntRange(0, len(viaNames)-1).Draw(rt, r.name+".via")]
 				switch rapid.IntRange(0, 2).Draw(rt, r.name+".nets") {
 				case 0:
@@ -385,37 +409,8 @@ func genWorld(rt *rapid.T) *world {
 		switch rapid.IntRange(0, 2).Draw(rt, "defaultNames") {
 		case 1:
 			w.defTCP, w.defUDP = strp("reject"), strp("reject")
-			needExplicit = needExplicit || false
 		case 2:
-			w.defTCP, w.defUDP = strp("d0"), strp("d0")
-		}
-	}
-	if len(w.routes) > 0 {
-		needExplicit = true
-	}
-
-	// Only when nothing names a client explicitly may the clients section be omitted or empty:
-	// "A default direct client will be automatically added" (README).
-	if !needExplicit {
-		w.clientsMode = rapid.IntRange(0, 2).Draw(rt, "clientsMode")
-		if w.clientsMode != 0 {
-			w.clients = nil
-			for _, s := range w.servers {
-				if s.upTCP != "" {
-					s.upTCP = "direct"
-				}
-				if s.upUDP != "" {
-					s.upUDP = "direct"
-				}
-			}
-			if w.defTCP != nil && *w.defTCP == "d0" {
-				choice := rapid.IntRange(0, 1).Draw(rt, "defaultDirectName")
-				if choice == 0 {
-					w.defTCP, w.defUDP = nil, nil
-				} else {
-					w.defTCP, w.defUDP = strp("direct"), strp("direct")
-				}
-			}
+			w.defTCP, w.defUDP = strp(directNames[0]), strp(directNames[0])
 		}
 	}
 
@@ -431,8 +426,14 @@ func genWorld(rt *rapid.T) *world {
 			b, _ := json.Marshal(s.users)
 			w.files[s.upskFile] = string(b)
 		}
-		if s.proto == "direct" && len(s.udp) > 0 && strings.HasPrefix(s.tunnel, "echo.test") && s.targetOnly != nil && s.targetOnly.Mode == mValue {
-			w.lenient = append(w.lenient, "domain-targetonly")
+		if s.proto == "direct" && strings.HasPrefix(s.tunnel, "echo.test") && s.targetOnly != nil && s.targetOnly.Mode == mValue {
+			// "drop packets not sent from tunnelRemoteAddress" has no defined meaning for a name:
+			// refusing at load and running without a crash are both within the statement
+			if len(s.udp) > 0 {
+				w.lenient = append(w.lenient, "domain-targetonly")
+			} else {
+				w.lenient = append(w.lenient, "domain-targetonly-no-udp")
+			}
 		}
 	}
 	return w
@@ -551,6 +552,9 @@ func (w *world) mutations(rt *rapid.T) []mutation {
 	add := func(kind, label string, f func()) { ms = append(ms, mutation{kind, label, f}) }
 	resize := func(k []byte, delta int) []byte {
 		if delta < 0 {
+			if len(k)+delta < 0 {
+				return k
+			}
 			return append([]byte(nil), k[:len(k)+delta]...)
 		}
 		return append(append([]byte(nil), k...), make([]byte, delta)...)
@@ -806,6 +810,28 @@ func (w *world) probes(seed uint64) []Probe {
 		ps = append(ps, Probe{Kind: "api", Addr: fmt.Sprintf("127.0.0.1:@@P%d@@", w.api.port), Path: path, Target: `"` + w.servers[0].name + `"`})
 	}
 	return ps
+}
+
+// listenList names every socket the services must have bound before traffic starts.
+func (w *world) listenList() []string {
+	var out []string
+	for _, s := range w.servers {
+		for _, l := range s.tcp {
+			out = append(out, fmt.Sprintf("tcp:@@P%d@@", l.port))
+		}
+		for _, l := range s.udp {
+			out = append(out, fmt.Sprintf("udp:@@P%d@@", l.port))
+		}
+	}
+	if w.api != nil {
+		out = append(out, fmt.Sprintf("tcp:@@P%d@@", w.api.port))
+	}
+	return out
+}
+
+// plan builds the plan for one representation of the world.
+func (w *world) plan(name, cfgText string, seed uint64) *Plan {
+	return &Plan{Name: name, Config: cfgText, Files: w.files, Ports: w.nports, Listen: w.listenList(), Probes: w.probes(seed)}
 }
 
 // classKey describes the configuration class of a world for the distinct count.
